@@ -26,6 +26,10 @@ itself (unset / 0: unbounded, n: the next n bytes).
 
 Round 5: (d') the exported EOS constant carries the pattern text the read-to-end path is keyed
 on.
+
+Round 6: strictness under python -O (asserts stripped, unbound locals raise); the constructor's
+decision tree for derived attributes is known to the delimiter rules; pack does not resize the
+value.
 """
 import ast
 
